@@ -162,7 +162,7 @@ def _work(chunk):
         except BaseException as e:  # the impl runner itself must never raise: report as a harness error
             r = ['HARNESS-ERROR', type(e).__name__, str(e)[:200]]
         if r and r[0] == 'HANG':
-            out.append((r, ('hang', 'the call did not return or raise within %s s of real time (the client clock is virtual: nothing waits)' % r[1])))
+            out.append((r, ('hang', 'the call did not return or raise within %s s of real time (the client clock is virtual: nothing waits)' % (r[1] if len(r) > 1 else '?'))))
             continue
         try:
             o = _MOD.oracle(c, r) if not (r and r[0] == 'HARNESS-ERROR') else None
